@@ -917,7 +917,12 @@ func c11MultiEval(c *Ctx, e *c11Env, cs c11Case, res cliOut) {
 // ---------- generators ----------
 
 var c11Names = []string{"d1", "d2", "d3", "k1", "kd", "u1", "u2", "main", ".d1", "d2(int)", "ns::(anonymous namespace)::d1(int)",
-	"A::operator()(int)", "operator()", "(anonymous namespace)", "d1(y)(z)", "", "u(", "k1<int>(x)", "(d1", ".", "..d1", "doperator()x(", "d1 (anonymous namespace)("}
+	"A::operator()(int)", "operator()", "(anonymous namespace)", "d1(y)(z)", "", "u(", "k1<int>(x)", "(d1", ".", "..d1", "doperator()x(", "d1 (anonymous namespace)(",
+	"operator new", "operators_impl", "d1 x", "u 1"}
+
+// prune_from values, among them values whose leading / trailing blanks and empty alternatives are
+// significant (an empty alternative matches every frame): they must be compiled exactly as given.
+var c11PruneFroms = []string{"d1", "^d", "d.$", "k1|d2", "main", "u", "1$", "nomatch", "operator", "operator ", "main|", "|d1", "d1||d2", " d1", "d1 ", "\td1", " x", " 1", "u ", "operator n"}
 var c11Drops = []string{"d1", "d.", "d.*", "d1|d2", "d2|d3", "k1|d.*", ".*", "[dk].*", "d1|kd", "u1", "main|d1", "A::operator\\(\\)", "ns::\\(anonymous namespace\\)::d1", "", "d1 \\(anonymous namespace\\)", "nomatch"}
 var c11Keeps = []string{"", "", "k1", "d2", "kd|d1", "k.*", ".*1", "d.*", "nomatch"}
 
@@ -1173,7 +1178,7 @@ func runC11(c *Ctx) {
 	}
 	for i := 0; i < 500*c.Scale; i++ {
 		p := genC11Profile(r, false)
-		cs := c11Case{Kind: "prunefrom", Stream: "main", Profile: Canon(p), PruneFrom: pick([]string{"d1", "^d", "d.$", "k1|d2", "main", "u", "^$", "operator", "\\(anonymous", "1$", "nomatch", "."})}
+		cs := c11Case{Kind: "prunefrom", Stream: "main", Profile: Canon(p), PruneFrom: pick(append([]string{"^$", "\\(anonymous", "."}, c11PruneFroms...))}
 		re, err := regexp.Compile(cs.PruneFrom)
 		if err != nil {
 			continue
@@ -1251,7 +1256,7 @@ func runC11(c *Ctx) {
 				}
 			}
 			if pf == "" {
-				pf, fe = pick([]string{"d1", "^d", "u", "main"}), pick([]string{"d2", "k1", "u1", "^u", "main"})
+				pf, fe = pick(c11PruneFroms), pick([]string{"d2", "k1", "u1", "^u", "main", "u |", " 1", "d1|"})
 				c.Res.Hit("cli:combo:random-expressions")
 			} else {
 				c.Res.Hit("cli:combo:filter-matches-leaf-side-of-prune-point")
@@ -1281,10 +1286,10 @@ func runC11(c *Ctx) {
 		case 0:
 			p.DropFrames, p.KeepFrames = pick(c11Drops), pick(c11Keeps)
 		case 1:
-			cs.PruneFrom = pick([]string{"d1", "^d", "d.$", "k1|d2", "main", "u", "1$", "nomatch"})
+			cs.PruneFrom = pick(c11PruneFroms)
 		default:
 			p.DropFrames, p.KeepFrames = pick(c11Drops), pick(c11Keeps)
-			cs.PruneFrom = pick([]string{"d1", "^d", "u", "main"})
+			cs.PruneFrom = pick(c11PruneFroms)
 		}
 		var buf bytes.Buffer
 		p.Write(&buf)
@@ -1364,10 +1369,10 @@ func runC11(c *Ctx) {
 		case i%3 != 2 && len(inl) > 0 && r.Chance(70):
 			cs.PruneFrom = "^" + inl[r.Intn(len(inl))] + "$"
 			c.Res.Hit("agg:prune_from-anchor-occurs-inlined")
-		case i%3 != 2 && len(all) > 0:
+		case i%3 != 2 && len(all) > 0 && r.Chance(40):
 			cs.PruneFrom = "^" + all[r.Intn(len(all))] + "$"
 		case i%3 != 2:
-			cs.PruneFrom = pick([]string{"d1", "^d", "u", "main"})
+			cs.PruneFrom = pick(c11PruneFroms)
 		}
 		if i%3 != 0 {
 			p.DropFrames, p.KeepFrames = pick(c11Drops), pick(c11Keeps)
